@@ -49,6 +49,8 @@ def run_rules(prop, facts_by_cfg, notes):
                 got = [Ob(rule_fn.__name__, "<engine>", "rule crashed", False, "%s: %s" % (type(ex).__name__, ex))]
                 notes.append("rule %s crashed on config %s:\n%s" % (rule_fn.__name__, cfg, traceback.format_exc()))
             for o in got:
+                if o.only is not None and prop not in o.only:
+                    continue      # a clause that is a necessary condition of other properties only
                 o.cfg = cfg
                 obs.append(o)
         fns |= set(ctx._fa.keys())
